@@ -6,4 +6,8 @@ if ! /venv/bin/python -c "import hypothesis" 2>/dev/null; then
   PIP_NO_INDEX=1 /venv/bin/pip install --no-index --find-links /opt/veriftools/wheels hypothesis
 fi
 /venv/bin/python -c "import hypothesis, numpy, scipy, jax, equinox, optax; print('setup ok: hypothesis', hypothesis.__version__)"
+# atheris (coverage-guided fuzzing of the constructors' shape algebra, C13) lives beside the repo's packages
+if [ ! -d .deps/atheris ]; then
+  PIP_NO_INDEX=1 /venv/bin/pip install -q --no-index --find-links /opt/veriftools/wheels --target .deps atheris || echo "atheris unavailable: the C13 shape fuzzer will be skipped"
+fi
 mkdir -p evidence replays .work
